@@ -519,6 +519,15 @@ theorem f1_scores_eq_confusion (t p : List Int) (s : ClassMetrics.Scores) (h : C
     s.f1.getD l 0 = Spec.f1Def (Spec.conf t p) (ClassMetrics.nLabels t p) l :=
   ClassMetrics.scores_eq t p s h l hl
 
+/-- ★ **metrics_eq_confusion** (`get_f1_score`, binary labels): F1, precision and recall of label 1. -/
+theorem f1_binary_eq_confusion (t p : List Int) (a b c : Rat) (h : ClassMetrics.f1Binary t p = .ok (a, b, c)) :
+    a = Spec.f1Def (Spec.conf t p) (ClassMetrics.nLabels t p) 1 ∧
+    b = Spec.precisionDef (Spec.conf t p) (ClassMetrics.nLabels t p) 1 ∧
+    c = Spec.recallDef (Spec.conf t p) (ClassMetrics.nLabels t p) 1 :=
+  ClassMetrics.f1Binary_eq t p a b c h
+
+example : ClassMetrics.f1Binary [0,0,1,1,-1] [0,1,1,1,0] = .ok (4/5, 2/3, 1) := by decide +kernel
+
 /-- ★ **metrics_eq_confusion** (macro average): the mean of the per-label F1 over the labels
     `0 … max(labels)` of the confusion matrix. -/
 theorem macro_f1_eq_confusion (t p : List Int) (x : Rat) (h : ClassMetrics.averageF1 t p .macro = .ok x) :
